@@ -426,7 +426,7 @@ TRUSTED = ["Coq 8.16.1 kernel", "no axioms (Print Assumptions: closed for every 
 
 def main(tier):
     c = vlib.Check("CM_tie", tier)
-    n_docs, n_synth = (2500, 1500) if tier == "quick" else (40000, 20000)
+    n_docs, n_synth = (6000, 3000) if tier == "quick" else (60000, 30000)
     ok = c.phase_proofs("CmLeaf")
     recs = tie_cm(c, n_docs, n_synth)
     if recs is not None:
